@@ -43,6 +43,15 @@ var c10Hostile = []string{
 	"WITH a AS (SELECT * FROM b), b AS (SELECT * FROM a) SELECT * FROM a",
 	"WITH a AS (SELECT * FROM t), b AS (SELECT * FROM a x JOIN b y ON x.k = y.k) SELECT * FROM b",
 	"WITH c AS (SELECT k FROM t WHERE k IN (SELECT k FROM `<-c`)) SELECT * FROM c",
+	"WITH a AS (SELECT k, items FROM t) SELECT k FROM `a[0]`",
+	"WITH a AS (SELECT k, items FROM t) SELECT * FROM a.items",
+	"WITH a AS (SELECT k, items FROM t) SELECT * FROM `a[7]`",
+	"WITH a AS (SELECT k, items FROM t) SELECT * FROM `a[each].items`",
+	"WITH a AS (SELECT k, items FROM t) SELECT * FROM `mix=>a.items`",
+	"WITH a AS (SELECT k, items FROM t) SELECT k, (SELECT p FROM `<-a[0].items`) AS sb FROM t",
+	"WITH a AS (SELECT k FROM t), b AS (SELECT * FROM `a[(0:1)]`) SELECT * FROM `b[0]`",
+	"WITH a AS (SELECT k, items FROM t) SELECT * FROM t WHERE k IN (SELECT k FROM `<-a[each]`)",
+	"WITH a AS (SELECT k, items FROM t) SELECT `a[0].k` AS v, `<-a.k` AS w FROM t",
 	"SELECT DISTINCT (SELECT p FROM items), * FROM t",
 	"SELECT DISTINCT *, (SELECT p FROM items) AS sb FROM t",
 	"SELECT *, (SELECT p FROM items) AS sb FROM t ORDER BY sb",
